@@ -39,15 +39,13 @@ Definition max_seq : Z := 2 ^ 64 - 1.                       (* wire.MaxTxInSeque
 Definition warmup_height : Z := 1398801.                    (* consensus.MASSIP0002WarmUpHeight *)
 Definition binding_locked : Z := 2 ^ 32 - 2.                (* consensus.MASSIP0002BindingLockedPeriod *)
 
-(* sequence given to an input by addTxIn / constructTxIn. [mined] = the previous transaction was
-   found in a block (constructTxIn falls back to the pending set, block = nil, and then evaluates
-   block.Height for a binding output: nil dereference). *)
-Definition seq_of (locktime class frozen height : Z) (mined : bool) : outcome Z :=
+(* sequence given to an input by addTxIn / constructTxIn. [height] is the height of the block of
+   the previous transaction, or synced height + 1 for a pending one (prevTxHeight). *)
+Definition seq_of (locktime class frozen height : Z) : Z :=
   let base := if locktime =? 0 then max_seq else max_seq - 1 in
-  if class =? 1 then Ok (frozen + 1)
-  else if class =? 2 then
-    (if mined then (if warmup_height <=? height then Ok binding_locked else Ok base) else Panic)
-  else Ok base.
+  if class =? 1 then frozen + 1
+  else if (class =? 2) && (warmup_height <=? height) then binding_locked
+  else base.
 
 Definition std_seq (locktime : Z) : Z := if locktime =? 0 then max_seq else max_seq - 1.
 
@@ -210,26 +208,27 @@ Record mreq := mkM {
   m_change_ok : bool;
   m_subfee : list Z }.           (* recipients bearing the fee (distinct) *)
 
-(* constructTxIn: (input id, sequence) list, owners, total value *)
-Fixpoint construct_tx_in (locktime : Z) (ins : list minput) (acc : list (Z * Z)) (senders : list Z) (total : Z)
+(* constructTxIn: (input id, sequence) list, owners, total value. [dupcheck] = the `seen` set of
+   outpoints (repair 3588e0f); false gives the code as first found. Every failure here is in the
+   class EInvalid (ErrShaHashFromStr, ErrInvalidParameter, ErrInvalidIndex, ErrNoAddressInWallet,
+   ErrInvalidAmount), so a repeated unknown / unparsable input needs no identity in the model. *)
+Fixpoint construct_tx_in (dupcheck : bool) (locktime : Z) (ins : list minput) (seen : list Z)
+    (acc : list (Z * Z)) (senders : list Z) (total : Z)
   : outcome (list (Z * Z) * list Z * Z) :=
   match ins with
   | [] => Ok (acc, senders, total)
   | MBadTxid :: _ => Err EInvalid
   | MUnknown :: _ => Err EInvalid
-  | MVoutOOR :: _ => Panic
+  | MVoutOOR :: _ => Err EInvalid
   | MOut k :: rest =>
-    if negb (k_parse k) then Err EInvalid
+    if dupcheck && memZ (k_id k) seen then Err EInvalid
+    else if negb (k_parse k) then Err EInvalid
     else if negb (k_owned k) then Err EInvalid
     else
-      match seq_of locktime (k_class k) (k_frozen k) (k_height k) (k_mined k) with
-      | Panic => Panic
-      | Err e => Err e
-      | Ok s =>
-        let total' := total + k_amt k in
-        if max_amount <? total' then Err EInvalid
-        else construct_tx_in locktime rest (acc ++ [(k_id k, s)]) (senders ++ [k_sh k]) total'
-      end
+      let s := seq_of locktime (k_class k) (k_frozen k) (k_height k) in
+      let total' := total + k_amt k in
+      if max_amount <? total' then Err EInvalid
+      else construct_tx_in dupcheck locktime rest (k_id k :: seen) (acc ++ [(k_id k, s)]) (senders ++ [k_sh k]) total'
   end.
 
 (* EstimateManualTxFee: estimateSignedSize looks every input up through existsMsgTx only (mined) *)
@@ -238,20 +237,16 @@ Definition manual_fee (ins : list minput) (nout : Z) : outcome Z :=
   then Ok (required_fee (estimate_signed_size (Z.of_nat (length ins)) nout 0))
   else Err EOther.
 
-Definition create_raw_sel (r : mreq) : outcome (otx * list Z) :=
-  match construct_tx_in (m_locktime r) (m_ins r) [] [] 0 with
+Definition create_raw_gen (dupcheck : bool) (r : mreq) : outcome (otx * list Z) :=
+  match construct_tx_in dupcheck (m_locktime r) (m_ins r) [] [] [] 0 with
   | Err e => Err e
   | Panic => Panic
   | Ok (tins, senders, total_in) =>
-    let change_addr :=
-      match m_change r with
-      | Some c => Ok (c, m_change_ok r)
-      | None => match senders with s :: _ => Ok (s, true) | [] => Panic end   (* senders[0] *)
-      end in
-    match change_addr with
-    | Err e => Err e
-    | Panic => Panic
-    | Ok (caddr, caddr_ok) =>
+    match senders with
+    | [] => Err EInvalid                      (* len(senders) == 0 (repair c619eb4) *)
+    | s0 :: _ =>
+      let caddr := match m_change r with Some c => c | None => s0 end in
+      let caddr_ok := match m_change r with Some _ => m_change_ok r | None => true end in
       let n := Z.of_nat (length (m_amounts r)) in
       match manual_fee (m_ins r) n with
       | Err e => Err e
@@ -292,6 +287,10 @@ Definition create_raw_sel (r : mreq) : outcome (otx * list Z) :=
       end
     end
   end.
+
+Definition create_raw_sel : mreq -> outcome (otx * list Z) := create_raw_gen true.
+(* the code before repair 3588e0f: no duplicate check *)
+Definition create_raw_sel_unfixed : mreq -> outcome (otx * list Z) := create_raw_gen false.
 
 Definition create_raw (st : wstate) (r : mreq) : outcome (otx * wstate) :=
   match create_raw_sel r with
@@ -365,7 +364,9 @@ Definition fee_cap (userfee nel nout payload : Z) : Z :=
    4 the change does not go to the requested change address / the first input's address
    5 inputs - outputs <> reported fee          6 fee < user fee
    7 fee < relay minimum of the signed size    8 fee above the allowed ceiling
-   9 a sequence number differs from the lock-time rule     10 change below the relay minimum (dust) *)
+   9 a sequence number differs from the lock-time rule
+   (a change below the relay minimum is not forbidden by the property's text: it is a fact about
+   the model — Proofs.outputs_exact — and shows up as a model/implementation difference) *)
 Definition auto_tx_check (st : wstate) (r : areq) (t : otx) : list Z :=
   let addrs := match a_from r with Some f => [f] | None => w_addrs st end in
   let el := eligible addrs (w_reserved st) (w_pool st) (w_utxos st) in
@@ -397,11 +398,7 @@ Definition auto_tx_check (st : wstate) (r : areq) (t : otx) : list Z :=
   (if a_userfee r <=? t_fee t then [] else [6]) ++
   (if required_fee (estimate_signed_size nin nout (a_payload r)) <=? t_fee t then [] else [7]) ++
   (if t_fee t <=? fee_cap (a_userfee r) (Z.of_nat (length el)) (Z.of_nat nreq) (a_payload r) then [] else [8]) ++
-  (if forallb (fun i => snd i =? std_seq (a_locktime r)) (t_ins t) then [] else [9]) ++
-  (match extra with
-   | [(_, v)] => if v <? min_relay then [10] else []
-   | _ => []
-   end).
+  (if forallb (fun i => snd i =? std_seq (a_locktime r)) (t_ins t) then [] else [9]).
 
 (* Manual creation. Clause numbers:
    1 an input is not an output of the current wallet   2 an output is spent twice
@@ -443,6 +440,57 @@ Definition manual_tx_check (r : mreq) (t : otx) : list Z :=
   (if req <=? t_fee t then [] else [7]) ++
   (if t_fee t <=? req + Z.max 0 (nsel - 1) then [] else [8]) ++
   (if forallb (fun i => match find_k (fst i) with
-                        | Some k => match seq_of (m_locktime r) (k_class k) (k_frozen k) (k_height k) (k_mined k) with
-                                    | Ok s => snd i =? s | _ => false end
+                        | Some k => snd i =? seq_of (m_locktime r) (k_class k) (k_frozen k) (k_height k)
                         | None => false end) (t_ins t) then [] else [9]).
+
+(* ------------------------------------------------------------------ "funds suffice", decided *)
+
+(* Is there a transaction the property accepts? Take the n largest eligible coins for some
+   n <= K: they must cover the outputs plus a fee that satisfies the fee clauses for n inputs and
+   no change (the user's fee and the relay minimum of that size); the surplus can go to the fee. *)
+Fixpoint valid_prefix (out uf nout payload : Z) (sorted : list utxo) (n acc : Z) (k : nat) : bool :=
+  match k, sorted with
+  | S k', u :: rest =>
+    let acc' := acc + u_amt u in
+    let n' := n + 1 in
+    (out + Z.max uf (required_fee (estimate_signed_size n' nout payload)) <=? acc')
+    || valid_prefix out uf nout payload rest n' acc' k'
+  | _, _ => false
+  end.
+
+(* the funds within the input cap: the K largest eligible coins *)
+Definition cap_funds (el : list utxo) : Z := sum_amt u_amt (firstn sel_k (sort_desc u_amt el)).
+
+(* the largest fee target the loop can reach *)
+Definition fmax (userfee nel nout payload : Z) : Z :=
+  Z.max (init_target userfee) (required_fee (size_cap nel nout payload)).
+
+(* classification of a reported insufficient-funds error of automatic creation:
+   0 no acceptable transaction exists (funds do not suffice);
+   1 one exists, and the funds within the cap are less than outputs + largest fee target +
+     MinRelayTxFee: the window left open by the dust-change adjustment (Proofs.sufficient_succeeds);
+   2 one exists and the funds are beyond that window: creation must have succeeded. *)
+Definition auto_slack_class (st : wstate) (r : areq) : Z :=
+  let addrs := match a_from r with Some f => [f] | None => w_addrs st end in
+  let el := eligible addrs (w_reserved st) (w_pool st) (w_utxos st) in
+  let out := sum_outs (a_outs r) in
+  let nout := Z.of_nat (length (a_outs r)) in
+  if negb (valid_prefix out (a_userfee r) nout (a_payload r) (sort_desc u_amt el) 0 0 sel_k) then 0
+  else if cap_funds el <? out + fmax (a_userfee r) (Z.of_nat (length el)) nout (a_payload r) + min_relay then 1
+  else 2.
+
+(* the same for explicit inputs (all of them acceptable): 0 the inputs do not cover outputs + fee
+   without change; 1 they do, and the surplus is at most the extra fee of a change output;
+   2 the surplus is larger: creation must not report insufficient funds. *)
+Definition manual_slack_class (r : mreq) : Z :=
+  let kouts := flat_map (fun i => match i with MOut k => [k] | _ => [] end) (m_ins r) in
+  let total_in := fold_right (fun k s => k_amt k + s) 0 kouts in
+  let n := Z.of_nat (length (m_amounts r)) in
+  let nin := Z.of_nat (length (m_ins r)) in
+  match maybe_subtract_fee (m_amounts r) (m_subfee r) (required_fee (estimate_signed_size nin n 0)),
+        maybe_subtract_fee (m_amounts r) (m_subfee r) (required_fee (estimate_signed_size nin (n + 1) 0)) with
+  | Ok (_, tot0), Ok (_, tot1) =>
+    if total_in <? tot0 then 0 else if total_in <=? tot1 then 1 else 2
+  | Ok (_, tot0), _ => if total_in <? tot0 then 0 else 1
+  | _, _ => 0
+  end.
